@@ -1,5 +1,6 @@
 import GoLevel.Model.Key
 import GoLevel.Proofs.TableTop
+import GoLevel.Proofs.BlockIterSlice
 /-!
 # Property C13: sorted tables round-trip, lookups, offsets, damage detection
 
@@ -261,6 +262,120 @@ example : ∃ t, Table.open exCfgF true (Table.write exCfgF exKVs) = some t ∧
     exPol_lawful exPol_gen (by decide) exKVs exKVs_small exKVs_sorted exKVs_keys (by decide +kernel) true
     ([3, 0], [2]) (by simp [exKVs])
 
+/-! ## (h) `blockIter`: the byte-level iterator over one block refines the cursor
+
+Model: `GoLevel/Model/BlockIter.lean` — `block.seek` / `restartIndex` / `restartOffset` / `entry` and `blockIter`
+with `offset`, `prevOffset`, `prevNode`, `prevKeys`, `restartIndex`, `dir`, the slice fields and `err`, methods
+`First/Last/Seek/Next/Prev` as coded, `newBlockIter` with a `util.Range` (differential: `tbl biter` lines of
+`harness/wp/c13`, answered by the real `blockIter`).  `BIter.run` lists, per call, the Boolean returned and
+`Key()/Value()`; `BIter.exec` is the iterator afterwards.  The proofs are over an abstract block layout
+(`Proofs/BlockIterLayout.lean`: any strictly increasing restart array whose targets store their key in full), which
+`Block.build` output has for every restart interval. -/
+
+/-- **Whole block.**  Over a block written from strictly increasing pairs — any restart interval — a fresh
+unsliced `blockIter` answers EVERY finite sequence of `First/Last/Seek/Next/Prev` exactly like the specification
+cursor over the pairs: same Boolean, same `Key()/Value()` after each call (restart-point binary search, the
+`Prev` cache rebuilt from the previous restart point, direction changes, running off either end and coming
+back); and `err` stays `nil` (so no loop of the model runs out of fuel either). -/
+theorem block_iter_refines_cursor {cmp : Bytes → Bytes → Ordering} (hc : LawfulCmp cmp) (ri : Nat) (kvs : List KV)
+    (hs : SmallKV kvs) (hsorted : StrictSorted cmp kvs) (hsz : (Block.build ri kvs).length < 2 ^ 32)
+    (cs : List (Call Bytes)) :
+    ∃ b, Block.read (Block.build ri kvs) = some b ∧
+      BIter.run cmp b (newBlockIter cmp b none false) cs =
+        ((Cursor.run kvs (geK cmp) .soi cs).map fun o => (o.isSome, o)) ∧
+      (BIter.exec cmp b (newBlockIter cmp b none false) cs).err = none :=
+  ⟨_, read_build_layout ri kvs hsz, run_whole (layout_build ri kvs hs hsz) hc hsorted cs,
+    exec_whole (layout_build ri kvs hs hsz) hc hsorted cs⟩
+
+/-- a walk with `Prev` after `Seek`, `Next` after `Last`, movement past both ends -/
+def exWalk : List (Call Bytes) :=
+  [.first, .next, .next, .prev, .seek [2, 5], .prev, .prev, .last, .next, .prev, .prev, .seek [9], .prev,
+   .first, .prev, .prev, .next, .seek [], .prev]
+
+-- restart interval 2 (restart points at entries 0, 2, 4, 6): the answers, spelled out
+example : ∃ b, Block.read (Block.build 2 exKVs) = some b ∧
+    (BIter.run bytesCompare b (newBlockIter bytesCompare b none false) exWalk).map (fun r => r.2.map (·.1)) =
+      [some [1], some [1, 2], some [1, 2, 3], some [1, 2], some [3], some [2], some [1, 2, 3], some [3, 0, 0], none,
+       some [3, 0, 0], some [3, 0], none, some [3, 0, 0], some [1], none, none, some [1], some [1], none] := by
+  obtain ⟨b, hb, hrun, _⟩ := block_iter_refines_cursor bytesCompare_lawful 2 exKVs exKVs_small exKVs_sorted
+    (by decide +kernel) exWalk
+  exact ⟨b, hb, by rw [hrun]; decide⟩
+
+-- restart interval 1 (every entry a restart point), 3 and 16 (a single restart point)
+example (cs : List (Call Bytes)) : ∃ b, Block.read (Block.build 1 exKVs) = some b ∧
+    BIter.run bytesCompare b (newBlockIter bytesCompare b none false) cs =
+      ((Cursor.run exKVs (geK bytesCompare) .soi cs).map fun o => (o.isSome, o)) ∧
+    (BIter.exec bytesCompare b (newBlockIter bytesCompare b none false) cs).err = none :=
+  block_iter_refines_cursor bytesCompare_lawful 1 exKVs exKVs_small exKVs_sorted (by decide +kernel) cs
+
+example (cs : List (Call Bytes)) : ∃ b, Block.read (Block.build 3 exKVs) = some b ∧
+    BIter.run bytesCompare b (newBlockIter bytesCompare b none false) cs =
+      ((Cursor.run exKVs (geK bytesCompare) .soi cs).map fun o => (o.isSome, o)) ∧
+    (BIter.exec bytesCompare b (newBlockIter bytesCompare b none false) cs).err = none :=
+  block_iter_refines_cursor bytesCompare_lawful 3 exKVs exKVs_small exKVs_sorted (by decide +kernel) cs
+
+example (cs : List (Call Bytes)) : ∃ b, Block.read (Block.build 16 exKVs) = some b ∧
+    BIter.run bytesCompare b (newBlockIter bytesCompare b none false) cs =
+      ((Cursor.run exKVs (geK bytesCompare) .soi cs).map fun o => (o.isSome, o)) ∧
+    (BIter.exec bytesCompare b (newBlockIter bytesCompare b none false) cs).err = none :=
+  block_iter_refines_cursor bytesCompare_lawful 16 exKVs exKVs_small exKVs_sorted (by decide +kernel) cs
+
+/-- **Sliced block.**  `newBlockIter(b, _, &util.Range{Start, Limit}, inclLimit)` — the bounds found with `Seek`
+(and `Next` when `inclLimit`), `riStart/riLimit`, `offsetStart/offsetRealStart/offsetLimit` set from them — answers
+every call sequence like the cursor over the slice: `sliceBlock` (pairs from the first key `≥ Start` up to the
+first key `≥ Limit`, exclusive) for a data block, `sliceIndex` (… inclusive) for the index block; any bounds
+(absent, inverted, outside the key range), any restart interval; `err` stays `nil`.  Excluded: an EMPTY block
+with a non-nil `Start` (see the example below: a later `Seek` reports corruption). -/
+theorem block_iter_slice_refines_cursor {cmp : Bytes → Bytes → Ordering} (hc : LawfulCmp cmp) (ri : Nat)
+    (kvs : List KV) (hs : SmallKV kvs) (hsorted : StrictSorted cmp kvs) (hsz : (Block.build ri kvs).length < 2 ^ 32)
+    (sl : BRange) (inclLimit : Bool) (hne : kvs ≠ [] ∨ sl.start = none) (cs : List (Call Bytes)) :
+    ∃ b, Block.read (Block.build ri kvs) = some b ∧
+      BIter.run cmp b (newBlockIter cmp b (some sl) inclLimit) cs =
+        ((Cursor.run (sliceOf cmp sl inclLimit kvs) (geK cmp) .soi cs).map fun o => (o.isSome, o)) ∧
+      (BIter.exec cmp b (newBlockIter cmp b (some sl) inclLimit) cs).err = none :=
+  ⟨_, read_build_layout ri kvs hsz, run_slice (layout_build ri kvs hs hsz) hc hsorted sl inclLimit hne cs⟩
+
+/-- … for a data block (`inclLimit = false`) the slice is the sub-list of the pairs with `Start ≤ key < Limit` -/
+theorem block_iter_range_refines_cursor {cmp : Bytes → Bytes → Ordering} (hc : LawfulCmp cmp) (ri : Nat)
+    (kvs : List KV) (hs : SmallKV kvs) (hsorted : StrictSorted cmp kvs) (hsz : (Block.build ri kvs).length < 2 ^ 32)
+    (sl : BRange) (hne : kvs ≠ [] ∨ sl.start = none) (cs : List (Call Bytes)) :
+    ∃ b, Block.read (Block.build ri kvs) = some b ∧
+      BIter.run cmp b (newBlockIter cmp b (some sl) false) cs =
+        ((Cursor.run (kvs.filter (inRange cmp sl.start sl.limit)) (geK cmp) .soi cs).map fun o => (o.isSome, o)) ∧
+      (BIter.exec cmp b (newBlockIter cmp b (some sl) false) cs).err = none := by
+  obtain ⟨b, hb, hrun, herr⟩ := block_iter_slice_refines_cursor hc ri kvs hs hsorted hsz sl false hne cs
+  refine ⟨b, hb, ?_, herr⟩
+  rw [hrun]
+  simp only [sliceOf, Bool.false_eq_true, if_false]
+  rw [sliceBlock_sorted hc sl.start sl.limit kvs hsorted]
+
+-- a slice that starts inside a restart range and ends at a restart point (restart interval 2, range [[1,2], [3])):
+-- `Last` then `Prev` down past the start, `Seek` below the start, `Seek` at the limit
+example : ∃ b, Block.read (Block.build 2 exKVs) = some b ∧
+    (BIter.run bytesCompare b (newBlockIter bytesCompare b (some ⟨some [1, 2], some [3]⟩) false)
+        [.last, .prev, .prev, .prev, .next, .seek [], .seek [3], .prev]).map (fun r => r.2.map (·.1)) =
+      [some [2], some [1, 2, 3], some [1, 2], none, some [1, 2], some [1, 2], none, some [2]] := by
+  obtain ⟨b, hb, hrun, _⟩ := block_iter_range_refines_cursor bytesCompare_lawful 2 exKVs exKVs_small exKVs_sorted
+    (by decide +kernel) ⟨some [1, 2], some [3]⟩ (Or.inl (by decide))
+    [.last, .prev, .prev, .prev, .next, .seek [], .seek [3], .prev]
+  exact ⟨b, hb, by rw [hrun]; decide⟩
+
+-- the index-block flavour (`inclLimit = true`, restart interval 1): the first key `≥ Limit` is kept
+example : ∃ b, Block.read (Block.build 1 exKVs) = some b ∧
+    (BIter.run bytesCompare b (newBlockIter bytesCompare b (some ⟨some [1, 2], some [2, 5]⟩) true)
+        [.last, .next, .prev, .prev, .first]).map (fun r => r.2.map (·.1)) =
+      [some [3], none, some [3], some [2], some [1, 2]] := by
+  obtain ⟨b, hb, hrun, _⟩ := block_iter_slice_refines_cursor bytesCompare_lawful 1 exKVs exKVs_small exKVs_sorted
+    (by decide +kernel) ⟨some [1, 2], some [2, 5]⟩ true (Or.inl (by decide)) [.last, .next, .prev, .prev, .first]
+  exact ⟨b, hb, by rw [hrun]; decide⟩
+
+-- the excluded case is real (known finding of C13): on an EMPTY block sliced with a non-nil `Start`, `Seek` makes
+-- `block.seek` run with `rstart = rlimit = restartsLen`, read the restart COUNT (1) as an offset, and `Next` reports
+-- "entries offset not aligned" (1 ≠ offsetLimit = 0) instead of "no such key"
+example : (Block.read (Block.build 16 [])).map (fun b =>
+    (BIter.exec bytesCompare b (newBlockIter bytesCompare b (some ⟨some [1], none⟩) false) [.seek [2]]).err)
+      = some (some .corrupted) := by decide +kernel
+
 /-! ## (g) damage -/
 
 /-- if the block at `bh` verifies, altering any single byte of payload ‖ type ‖ checksum makes `readRawBlock`
@@ -300,7 +415,9 @@ end GoLevel.C13
 def GoLevel.C13.theorems : List String :=
   ["GoLevel.C13.block_decode_build", "GoLevel.C13.block_seek_spec", "GoLevel.C13.table_entries_write",
    "GoLevel.C13.table_range_spec", "GoLevel.C13.table_find_spec", "GoLevel.C13.table_get_spec", "GoLevel.C13.offsetOf_monotone",
-   "GoLevel.C13.filter_partition", "GoLevel.C13.table_filtered_find_stored", "GoLevel.C13.block_damage_detected"]
+   "GoLevel.C13.filter_partition", "GoLevel.C13.table_filtered_find_stored", "GoLevel.C13.block_damage_detected",
+   "GoLevel.C13.block_iter_refines_cursor", "GoLevel.C13.block_iter_slice_refines_cursor",
+   "GoLevel.C13.block_iter_range_refines_cursor"]
 
 #print axioms GoLevel.C13.block_decode_build
 #print axioms GoLevel.C13.block_seek_spec
@@ -312,3 +429,6 @@ def GoLevel.C13.theorems : List String :=
 #print axioms GoLevel.C13.filter_partition
 #print axioms GoLevel.C13.table_filtered_find_stored
 #print axioms GoLevel.C13.block_damage_detected
+#print axioms GoLevel.C13.block_iter_refines_cursor
+#print axioms GoLevel.C13.block_iter_slice_refines_cursor
+#print axioms GoLevel.C13.block_iter_range_refines_cursor
